@@ -36,10 +36,12 @@ def crossing_status(a, b, c, d, ax):
         la, lc = fnorm(sub(b, a)), fnorm(sub(d, c))
         sinang = abs(float(den)) / max(math.sqrt(float((b2[0]-a2[0])**2 + (b2[1]-a2[1])**2)) * math.sqrt(float((d2[0]-c2[0])**2 + (d2[1]-c2[1])**2)), 1e-300)
         m = Fraction(1, 10**4)
-        # the crate takes two edges for parallel when |ab x cd|^2 < 1e-5 (Vector3D::is_parallel, an ABSOLUTE bound on the
-        # unnormalised cross product): "clearly transversal" keeps a factor 10 away from it
-        cr2 = float(n2(cross(sub(b, a), sub(d, c))))
-        if m < s < 1 - m and m < t < 1 - m and sinang > 1e-3 and la > 1e-3 and lc > 1e-3 and cr2 > 1e-4: return 'cross'
+        # the crate takes two edges for parallel when no component of ab x cd exceeds 1e-5 (an ABSOLUTE bound on the
+        # unnormalised cross product; until 2d3851b also when |ab x cd|^2 < 1e-5 for directions that agree): "clearly
+        # transversal" keeps a factor 10 away from it
+        cr = cross(sub(b, a), sub(d, c))
+        crmax = max(abs(float(cr[0])), abs(float(cr[1])), abs(float(cr[2])))
+        if m < s < 1 - m and m < t < 1 - m and sinang > 1e-3 and la > 1e-3 and lc > 1e-3 and crmax > 1e-4: return 'cross'
         return 'band'
     if segs_touch2(a2, b2, c2, d2): return 'band'
     dmin = min(dist2_point_segment(a, c, d), dist2_point_segment(b, c, d), dist2_point_segment(c, a, b), dist2_point_segment(d, a, b))
